@@ -65,16 +65,32 @@ func c19Check(c *hist.Case, r *evid.Rec) []evid.Disc {
 	}
 	var ds []evid.Disc
 	scripts := c.Cfg.Scripts
-	admitted, aclOK := false, false
+	admitted, aclOK, refusedBy := false, false, ""
 	for _, sc := range scripts {
 		if sc.Auth == "allow" {
 			admitted = true
+		}
+		if sc.OnConnect == "refuse" {
+			refusedBy = sc.Name
 		}
 		if sc.ACL == "allow" {
 			aclOK = true
 		}
 	}
-	// (1) admission: any authentication hook allowing admits; none allowing refuses
+	// (1) admission: any authentication hook allowing admits; none allowing refuses; an OnConnect hook that returns an
+	// error refuses whatever the hooks registered after it say
+	if refusedBy != "" {
+		r.Label("connect-refused-by-a-hook")
+		for _, p := range run.Peers {
+			if p.Established() {
+				ds = append(ds, evid.D("C19-admitted-although-an-OnConnect-hook-refused", "%s#%d received a success CONNACK although OnConnect of hook %s returned an error; scripts %s", p.CID, p.ID, refusedBy, c19Scripts(scripts)))
+			}
+		}
+		if len(scripts) >= 2 {
+			r.NonTrivial("refuse|" + c19Scripts(scripts))
+		}
+		return withTranscript(ds, run)
+	}
 	for _, p := range run.Peers {
 		if p.Connack == nil {
 			if admitted {
@@ -241,7 +257,7 @@ func verClass(v, q byte) string {
 func c19Scripts(ss []hist.Script) string {
 	var out []string
 	for _, sc := range ss {
-		out = append(out, fmt.Sprintf("%s{read=%s pub=%s auth=%s acl=%s}", sc.Name, dash(sc.OnPacketRead), dash(sc.OnPublish), dash(sc.Auth), dash(sc.ACL)))
+		out = append(out, fmt.Sprintf("%s{read=%s pub=%s auth=%s acl=%s connect=%s}", sc.Name, dash(sc.OnPacketRead), dash(sc.OnPublish), dash(sc.Auth), dash(sc.ACL), dash(sc.OnConnect)))
 	}
 	return "[" + strings.Join(out, " ") + "]"
 }
@@ -263,12 +279,21 @@ func c19Gen(rt *rapid.T) *hist.Case {
 	for i := 0; i < n; i++ {
 		sc := hist.Script{Name: names[i]}
 		sc.OnPublish = pick(rt, "onpublish", []string{"", "pass", "pass", "modify", "modify", "modify", "reject", "ignore", "code", "error"})
-		sc.OnPacketRead = pick(rt, "onread", []string{"", "", "pass", "modify", "modify", "reject"})
+		sc.OnPacketRead = pick(rt, "onread", []string{"", "", "pass", "modify", "modify", "reject", "error"})
 		sc.Auth = pick(rt, "auth", []string{"", "allow", "allow", "deny"})
 		sc.ACL = pick(rt, "acl", []string{"", "allow", "allow", "deny"})
 		anyAuth = anyAuth || sc.Auth == "allow"
 		anyACL = anyACL || sc.ACL == "allow"
 		c.Cfg.Scripts = append(c.Cfg.Scripts, sc)
+	}
+	if rapid.IntRange(0, 7).Draw(rt, "connect-hooks") == 0 {
+		// OnConnect hooks: all pass, except that (usually) one of them refuses - the others may come before or after it
+		for i := range c.Cfg.Scripts {
+			c.Cfg.Scripts[i].OnConnect = pick(rt, "onconnect", []string{"", "pass", "pass"})
+		}
+		if rapid.IntRange(0, 3).Draw(rt, "refuse") != 0 {
+			c.Cfg.Scripts[rapid.IntRange(0, n-1).Draw(rt, "which-refuses")].OnConnect = "refuse"
+		}
 	}
 	// most cases keep the broker usable: make the last hook allow what nobody allows (the rest stay as drawn)
 	if !anyAuth && rapid.IntRange(0, 7).Draw(rt, "keep-unauth") != 0 {
@@ -293,7 +318,7 @@ func c19Gen(rt *rapid.T) *hist.Case {
 }
 
 func TestC19(t *testing.T) {
-	r := evid.New("C19", "rapid: a stack of 1-3 scripted hooks registered in order (no other auth hook); each has a fixed script per event: OnPublish in {not provided, pass, modify (append '+name'), ErrRejectPacket, CodeSuccessIgnore, a packets.Code error, a plain Go error}, OnPacketRead in {not provided, pass, modify (append '~name'), ErrRejectPacket}, OnConnectAuthenticate and OnACLCheck in {not provided, allow, deny}; a publisher (v3.1 / v3.1.1 / v5) sends 1-6 publishes (QoS 0-2, retain 0/1, one topic each) to a v5 QoS 2 subscriber; a later subscriber reads the retained store. Every hook logs (order, input). Oracle: logged calls == registration order, each hook's input == previous hook's output, nothing runs after a stop; no stop -> delivered once with the chained payload and retained iff retain; reject / ignore / code error / plain error at any hook, or a read reject -> never forwarded and never retained, for every version and QoS; CONNACK success <=> some auth hook allows; SUBACK success <=> some ACL hook allows. Non-trivial = at least 2 hooks and a non-pass script on a publish; distinct by (scripts, publish parameters)")
+	r := evid.New("C19", "rapid: a stack of 1-3 scripted hooks registered in order (no other auth hook); each has a fixed script per event: OnPublish in {not provided, pass, modify (append '+name'), ErrRejectPacket, CodeSuccessIgnore, a packets.Code error, a plain Go error}, OnPacketRead in {not provided, pass, modify (append '~name'), ErrRejectPacket, a plain error (that hook's output is set aside, the chain continues with the previous hook's output)}, OnConnectAuthenticate and OnACLCheck in {not provided, allow, deny}, in one case in eight OnConnect in {not provided, pass, returns an error}; a publisher (v3.1 / v3.1.1 / v5) sends 1-6 publishes (QoS 0-2, retain 0/1, one topic each) to a v5 QoS 2 subscriber; a later subscriber reads the retained store. Every hook logs (order, input). Oracle: logged calls == registration order, each hook's input == previous hook's output, nothing runs after a stop; no stop -> delivered once with the chained payload and retained iff retain; reject / ignore / code error / plain error at any hook, or a read reject -> never forwarded and never retained, for every version and QoS; CONNACK success <=> some auth hook allows and no OnConnect hook returned an error; SUBACK success <=> some ACL hook allows. Non-trivial = at least 2 hooks and a non-pass script on a publish; distinct by (scripts, publish parameters)")
 	defer r.Finish(t)
 	if evid.ReplayMode() {
 		evid.Replay(t, r, replayPath(), c19Check)
